@@ -18,7 +18,7 @@ ASSUMPTIONS = [
     'a capability is compared only when both sides offer it (e.g. batch().unbatch() is not indexable, id is)',
 ]
 N = {'quick': 1200, 'thorough': 6000}
-LAWS = ['tile_shuffle_concat', 'batch_unbatch', 'concat_split', 'nested_slice', 'map_slice', 'map_shuffle', 'map_sort', 'map_concat',
+LAWS = ['tile_concat_random', 'tile_shuffle_concat', 'batch_unbatch', 'concat_split', 'nested_slice', 'map_slice', 'map_shuffle', 'map_sort', 'map_concat',
         'map_batch', 'map_cache', 'map_map', 'filter_select', 'tile_concat']
 CTX_OPS = gen.PROFILES['deterministic'] - {'cache_eager'}
 
@@ -130,6 +130,15 @@ def st_law(draw):
     n = m.n
     f = draw(st.integers(0, 3))
     trivial = False
+    if law == 'tile_concat_random':
+        # tile(r) of a pipeline with a seeded per-epoch reshuffle equals the r-fold concatenation of that object,
+        # epoch by epoch (both sides share one permutation state per epoch sequence)
+        r = draw(st.integers(1, 3))
+        R = {'op': 'reshuffle', 'seed': draw(st.integers(0, 99)), 'in': S}
+        if draw(st.booleans()):
+            R = {'op': 'map', 'fn': f, 'in': R}
+        return {'law': law, 'lhs': {'op': 'tile', 'r': r, 'in': R}, 'rhs': {'op': 'concat_same', 'r': r, 'in': R},
+                'epochs': 3, 'trivial': r == 1 or n <= 1}
     if law == 'tile_shuffle_concat':
         # tile(r, shuffle=True) = concatenation of r independently (globally seeded) shuffled copies
         r = draw(st.integers(1, 3))
@@ -257,6 +266,13 @@ def check(case):
     if 'np_seed' in case:
         np.random.seed(case['np_seed'])
     dr, _ = progcheck.build_checked(case['rhs'])
+    if case.get('epochs'):
+        for e in range(case['epochs']):
+            a, b = list(dl), list(dr)
+            if not observe.same_list(a, b):
+                raise Violation(f'{case["law"]}|epoch', f'law {case["law"]}\nlhs: {progs.show(case["lhs"])}\nrhs: '
+                                                        f'{progs.show(case["rhs"])}\nepoch {e}: lhs {a}\n         rhs {b}')
+        return
     try:
         compare(record(dl), record(dr), case['law'])
     except Violation as v:
